@@ -49,7 +49,11 @@ impl Prop for C02 {
         ]
     }
     fn enumerate(&self, _tier: Tier) -> Vec<HistCase> {
-        gen::enumerate_histories(0)
+        let mut v = gen::enumerate_histories(0);
+        for huge in [1u8, 2] {
+            v.push(HistCase { universe: 6, spec: 0, wmode: 1, ctor: None, ops: vec![], huge });
+        }
+        v
     }
     fn strategy(&self, tier: Tier) -> BoxedStrategy<HistCase> {
         use proptest::prelude::*;
@@ -62,6 +66,17 @@ impl Prop for C02 {
         tier.pick(60_000, 600_000)
     }
     fn check(&self, case: &HistCase) -> Outcome {
+        if case.huge > 0 {
+            // the fixed huge-graph cases (more than 2^16 nodes), sampled reads and linear oracles
+            let mut out = Outcome::new();
+            let gc = &crate::huge::huge_cases()[(case.huge as usize - 1) % 2];
+            let ng = gc.norm();
+            let g = ng.build();
+            crate::huge::core_reads(&g, &ng, &mut out);
+            out.class("huge_graph_66003_nodes");
+            out.nontrivial = true;
+            return out;
+        }
         let mut out = Outcome::new();
         let Some((mut m, mut g)) = run_ctor(case, &mut out) else {
             return out;
